@@ -4,6 +4,7 @@ import (
 	"errors"
 	"fmt"
 	"net"
+	"strings"
 
 	"github.com/oschwald/geoip2-golang"
 )
@@ -93,7 +94,7 @@ func (mmdb *maxMindDatabase) ASN(ipAddress net.IP) (uint, error) {
 
 	record, err := mmdb.asnReader.ASN(ipAddress)
 	if err != nil {
-		return 0, err
+		return 0, withoutAddr(err, ipAddress)
 	}
 
 	return record.AutonomousSystemNumber, nil
@@ -107,11 +108,22 @@ func (mmdb *maxMindDatabase) CC(ipAddress net.IP) (string, error) {
 
 	record, err := mmdb.ccReader.Country(ipAddress)
 	if err != nil {
-		return "", err
+		return "", withoutAddr(err, ipAddress)
 	}
 	if record == nil {
 		return "unk", nil
 	}
 
 	return record.Country.IsoCode, nil
+}
+
+// withoutAddr takes the looked-up address out of a lookup error. The callers look up client addresses
+// and log the error, and the reader repeats the address in its text ("error looking up '<ip>': you
+// attempted to look up an IPv6 address in an IPv4-only database"); client addresses must not reach the
+// logs unless client IP logging is enabled.
+func withoutAddr(err error, ip net.IP) error {
+	if ip == nil || !strings.Contains(err.Error(), ip.String()) {
+		return err
+	}
+	return errors.New(strings.ReplaceAll(err.Error(), ip.String(), "_"))
 }
